@@ -24,7 +24,7 @@ CFG = {
     "rule": "A exhaustive: every byte string over {marker, other} of length <= 9 (quick) / <= 10 (thorough) with marker='\\n' x every chunking into "
             "non-empty chunks, and length <= 7 / <= 8 with marker='a', other='\\n' (so mapped and line_mapped differ), prefix mapper add_prefix('> '), "
             "through mapped (dropped), mapped (unwrap), line_mapped (dropped), tee; then 15k / 200k seeded inputs (<= 60 bytes, 3 symbols, 4 markers, "
-            "5 prefixes, empty chunks). B: sizes {0,1,64Ki,64Ki+1,3*64Ki+17,4*64Ki} (thorough: 10 sizes) per stream in both orders, alternating, "
+            "5 prefixes, empty chunks; half of them with short-writing targets). A with scripted targets (accept at most k in {1,2,3,7} bytes per call, alternate full/short, every n-th call Interrupted; first tee target / second / inner writer of the mapped writers, 12 configurations): every string of length <= 6 (7 thorough) x every chunking, fed with a write_all loop. B also with such writers handed to output_and_write_streams (6 configurations x 7 size pairs x seq/par). B: sizes {0,1,64Ki,64Ki+1,3*64Ki+17,4*64Ki} (thorough: 10 sizes) per stream in both orders, alternating, "
             "simultaneous (two writer threads in the child), with 5-20 ms delays, 60/400 small scripts (the driver runs the step model itself on "
             "those), 30/300 random larger scripts. non-trivial: A = the input holds a marker, is split into >= 2 chunks and a chunk boundary falls "
             "inside a segment; B = both streams non-empty or one stream larger than a pipe buffer; distinct = distinct input line",
